@@ -1152,82 +1152,7 @@ func ruleGOPT(w *World, r *Report) {
 				count := args[len(args)-1]
 				n++
 				key := fmt.Sprintf("%s:%s:goroutines", name, cn)
-				why := ""
-				var check func(v ssa.Value, at *ssa.BasicBlock, depth int)
-				check = func(v ssa.Value, at *ssa.BasicBlock, depth int) {
-					if why != "" || depth > 4 {
-						return
-					}
-					v = stripAllConv(v)
-					switch x := v.(type) {
-					case *ssa.Phi:
-						for i, e := range x.Edges {
-							if i < len(x.Block().Preds) {
-								pred := x.Block().Preds[i]
-								// facts of the edge itself
-								rc := &rangeCtx{memo: map[ssa.Value]*ival{}, busy: map[ssa.Value]bool{}}
-								_ = rc
-								check2 := func() {
-									ev := stripAllConv(e)
-									if _, isCall := ev.(*ssa.Call); isCall {
-										check(ev, pred, depth+1)
-										return
-									}
-									if _, isPhi := ev.(*ssa.Phi); isPhi {
-										check(ev, pred, depth+1)
-										return
-									}
-									iv := rc.eval(ev, pred)
-									if len(pred.Instrs) > 0 {
-										if iff, ok := pred.Instrs[len(pred.Instrs)-1].(*ssa.If); ok && pred.Succs[0] != pred.Succs[1] {
-											iv = refineByFacts(ev, iv, factCmps(Fact{iff.Cond, pred.Succs[0] == x.Block(), iff}))
-										}
-									}
-									if iv == nil || !iv.lo.IsInt64() || iv.lo.Int64() < 1 {
-										why = fmt.Sprintf("on the path through %s the count %s is not known to be >= 1", w.ipos(pred.Instrs[len(pred.Instrs)-1]), ev)
-									}
-								}
-								check2()
-							}
-						}
-					case *ssa.Call:
-						g := x.Call.StaticCallee()
-						if g == nil {
-							why = "the count comes from an unknown call"
-							return
-						}
-						switch shortName(g) {
-						case "par2.NumGoroutinesDefault", "rsec16.DefaultNumGoroutines":
-							return // the package default
-						}
-						if len(g.Blocks) == 0 || !w.inModule(g) {
-							why = "the count comes from " + shortName(g)
-							return
-						}
-						for _, gb := range g.Blocks {
-							if ret, ok := gb.Instrs[len(gb.Instrs)-1].(*ssa.Return); ok && len(ret.Results) == 1 {
-								rv := stripAllConv(ret.Results[0])
-								switch rv.(type) {
-								case *ssa.Call, *ssa.Phi:
-									check(rv, gb, depth+1)
-								default:
-									rc := &rangeCtx{memo: map[ssa.Value]*ival{}, busy: map[ssa.Value]bool{}}
-									iv := rc.eval(rv, gb)
-									if iv == nil || !iv.lo.IsInt64() || iv.lo.Int64() < 1 {
-										why = fmt.Sprintf("%s can return %s, which is not known to be >= 1 there (%s)", shortName(g), rv, w.ipos(ret))
-									}
-								}
-							}
-						}
-					default:
-						rc := &rangeCtx{memo: map[ssa.Value]*ival{}, busy: map[ssa.Value]bool{}}
-						iv := rc.eval(v, at)
-						if iv == nil || !iv.lo.IsInt64() || iv.lo.Int64() < 1 {
-							why = fmt.Sprintf("the count %s is not known to be >= 1", v)
-						}
-					}
-				}
-				check(count, c.Block(), 0)
+				why := posProblem(w, count, c.Block(), 0, true)
 				if why == "" {
 					r.ok("GOPT", key, w.ipos(c), "the count is the package default or a value known to be >= 1")
 				} else {
@@ -1449,4 +1374,270 @@ func ruleALLOCBOUND(w *World, r *Report) {
 		}
 	}
 	r.floor("ALLOCBOUND", "Repair methods examined", n, 2)
+}
+
+// ---------------------------------------------------------------------------
+// SCANALL: the slice search looks at every offset of the file
+
+const ruleSCANALLText = "the slice search covers the whole file: in par2.fillShardInfos the loop that looks slices up in the checksum map (checksumShardLocationMap.get) is left only on the edge where the scan position has reached len(data) - no break, return or extra loop condition ends the scan while bytes remain, because a slice (the zero-padded last one in particular) can sit at any offset of a file whose content was shifted, and a slice not looked for is counted as unusable"
+
+func ruleSCANALL(w *World, r *Report) {
+	r.rule("SCANALL", ruleSCANALLText)
+	fn := w.Fn("par2.fillShardInfos")
+	if fn == nil || len(fn.Params) < 2 {
+		r.unk("SCANALL", "fillShardInfos", "", "function not found")
+		return
+	}
+	data := ssa.Value(fn.Params[1])
+	n := 0
+	for _, f := range region(fn) {
+		for _, c := range callInstrs(f) {
+			if staticCalleeShort(c.Common()) != "(par2.checksumShardLocationMap).get" {
+				continue
+			}
+			// lift the lookup to its call site in fillShardInfos
+			var site ssa.Instruction = c
+			for d := 0; d < 4 && site != nil && site.Parent() != fn; d++ {
+				g := site.Parent()
+				if g.Parent() != nil {
+					// function literal: continue at the place it is made
+					var next ssa.Instruction
+					for _, b := range g.Parent().Blocks {
+						for _, in := range b.Instrs {
+							if mc, ok := in.(*ssa.MakeClosure); ok && mc.Fn == g {
+								next = mc
+							}
+						}
+					}
+					site = next
+					continue
+				}
+				if u := w.uniqueSite(g); u != nil {
+					site = u
+				} else {
+					site = nil
+				}
+			}
+			if site == nil || site.Parent() != fn {
+				r.unk("SCANALL", "fillShardInfos:lookup", w.ipos(c), "the lookup is not made from one place in fillShardInfos")
+				continue
+			}
+			n++
+			key := fmt.Sprintf("fillShardInfos:scan-loop#%d", n-1)
+			loops := naturalLoops(fn)
+			// outermost loop containing the lookup
+			var scan *natLoop
+			for _, l := range loops {
+				if l.body[site.Block()] && (scan == nil || len(l.body) > len(scan.body)) {
+					scan = l
+				}
+			}
+			if scan == nil {
+				r.bad("SCANALL", key, w.ipos(site), "the lookup of slices in the checksum map is not inside a loop over the offsets of the file")
+				continue
+			}
+			isLenData := func(v ssa.Value) bool {
+				v = stripAllConv(v)
+				call, ok := v.(*ssa.Call)
+				if !ok {
+					return false
+				}
+				b, ok := call.Call.Value.(*ssa.Builtin)
+				if !ok || b.Name() != "len" || len(call.Call.Args) != 1 {
+					return false
+				}
+				a := call.Call.Args[0]
+				return a == data || w.up(a) == data
+			}
+			inLoopPhi := func(v ssa.Value) bool {
+				v = stripAllConv(v)
+				p, ok := v.(*ssa.Phi)
+				return ok && scan.body[p.Block()]
+			}
+			bad := ""
+			exits := 0
+			for b := range scan.body {
+				last := b.Instrs[len(b.Instrs)-1]
+				switch t := last.(type) {
+				case *ssa.Return:
+					bad = "return at " + w.ipos(t)
+					continue
+				case *ssa.Panic:
+					continue
+				}
+				for i, s := range b.Succs {
+					if scan.body[s] {
+						continue
+					}
+					exits++
+					iff, ok := last.(*ssa.If)
+					if !ok {
+						bad = "jump out of the loop at " + w.ipos(last)
+						continue
+					}
+					okEdge := false
+					for _, cm := range factCmps(Fact{iff.Cond, i == 0, iff}) {
+						if cm.Y == nil {
+							continue
+						}
+						x, y, op := cm.X, cm.Y, cm.Op
+						if isLenData(x) && inLoopPhi(y) {
+							x, y, op = y, x, swapOp(op)
+						}
+						if inLoopPhi(x) && isLenData(y) && (op == token.GEQ || op == token.EQL) {
+							okEdge = true
+						}
+					}
+					if !okEdge {
+						bad = "exit at " + w.ipos(last)
+					}
+				}
+			}
+			if bad != "" {
+				r.bad("SCANALL", key, w.ipos(site), "the scan can stop before the position has reached len(data) ("+bad+"): slices that sit in the rest of the file are never looked for and are counted as unusable")
+			} else if exits == 0 {
+				r.unk("SCANALL", key, w.ipos(site), "no exit of the scan loop found")
+			} else {
+				r.ok("SCANALL", key, w.ipos(site), fmt.Sprintf("all %d exits of the scan loop are taken with position >= len(data)", exits))
+			}
+		}
+	}
+	r.floor("SCANALL", "checksum-map lookups in fillShardInfos", n, 1)
+}
+
+// posProblem explains why integer v, used in block at, is not known to be >= 1 ("" if it is).
+// Phis are judged per incoming edge with the facts of that edge; calls of module functions by
+// their returns; runtime.GOMAXPROCS(0)/NumCPU() are >= 1 by their documentation. With
+// trustDefault the package default of the goroutine count is taken as given (DEFPOS decides it).
+func posProblem(w *World, v ssa.Value, at *ssa.BasicBlock, depth int, trustDefault bool) string {
+	if depth > 5 {
+		return fmt.Sprintf("the count %s could not be followed further", v)
+	}
+	v = stripAllConv(v)
+	newRC := func() *rangeCtx { return &rangeCtx{memo: map[ssa.Value]*ival{}, busy: map[ssa.Value]bool{}} }
+	known := func(iv *ival) bool { return iv != nil && iv.lo.IsInt64() && iv.lo.Int64() >= 1 || iv != nil && !iv.lo.IsInt64() && iv.lo.Sign() > 0 }
+	switch x := v.(type) {
+	case *ssa.Phi:
+		for i, e := range x.Edges {
+			if i >= len(x.Block().Preds) {
+				continue
+			}
+			pred := x.Block().Preds[i]
+			ev := stripAllConv(e)
+			switch ev.(type) {
+			case *ssa.Call, *ssa.Phi:
+				// the edge facts may still decide it
+				iv := newRC().eval(ev, pred)
+				if iff, ok := pred.Instrs[len(pred.Instrs)-1].(*ssa.If); ok && pred.Succs[0] != pred.Succs[1] {
+					iv = refineByFacts(ev, iv, factCmps(Fact{iff.Cond, pred.Succs[0] == x.Block(), iff}))
+				}
+				if known(iv) {
+					continue
+				}
+				if why := posProblem(w, ev, pred, depth+1, trustDefault); why != "" {
+					return why
+				}
+				continue
+			}
+			iv := newRC().eval(ev, pred)
+			if iff, ok := pred.Instrs[len(pred.Instrs)-1].(*ssa.If); ok && pred.Succs[0] != pred.Succs[1] {
+				iv = refineByFacts(ev, iv, factCmps(Fact{iff.Cond, pred.Succs[0] == x.Block(), iff}))
+			}
+			if !known(iv) {
+				return fmt.Sprintf("on the path through %s the count %s is not known to be >= 1", w.ipos(pred.Instrs[len(pred.Instrs)-1]), describeVal(ev))
+			}
+		}
+		return ""
+	case *ssa.Call:
+		if known(newRC().eval(x, at)) {
+			return ""
+		}
+		g := x.Call.StaticCallee()
+		if g == nil {
+			return "the count comes from an unknown call"
+		}
+		switch shortName(g) {
+		case "runtime.GOMAXPROCS", "runtime.NumCPU":
+			return ""
+		case "par2.NumGoroutinesDefault", "rsec16.DefaultNumGoroutines":
+			if trustDefault {
+				return "" // the package default
+			}
+		}
+		if len(g.Blocks) == 0 || !w.inModule(g) {
+			return "the count comes from " + shortName(g)
+		}
+		for _, gb := range g.Blocks {
+			if ret, ok := gb.Instrs[len(gb.Instrs)-1].(*ssa.Return); ok && len(ret.Results) == 1 {
+				if why := posProblem(w, ret.Results[0], gb, depth+1, trustDefault); why != "" {
+					return fmt.Sprintf("%s (returned by %s at %s)", why, shortName(g), w.ipos(ret))
+				}
+			}
+		}
+		return ""
+	}
+	if known(newRC().eval(v, at)) {
+		return ""
+	}
+	if p, ok := v.(*ssa.Parameter); ok && p.Parent() != nil && p.Parent().Object() != nil && !p.Parent().Object().Exported() {
+		// a parameter of a private function is what its call sites pass
+		idx := -1
+		for i, q := range p.Parent().Params {
+			if q == p {
+				idx = i
+			}
+		}
+		sites := w.callSites(p.Parent())
+		if idx >= 0 && len(sites) > 0 {
+			for _, site := range sites {
+				args := site.Common().Args
+				if idx >= len(args) {
+					return fmt.Sprintf("the count %s is not known to be >= 1", describeVal(v))
+				}
+				if why := posProblem(w, args[idx], site.Block(), depth+1, trustDefault); why != "" {
+					return why
+				}
+			}
+			return ""
+		}
+	}
+	return fmt.Sprintf("the count %s is not known to be >= 1", describeVal(v))
+}
+
+// ---------------------------------------------------------------------------
+// DEFPOS: the default goroutine count is a goroutine count
+
+const ruleDEFPOSText = "the default worker count is a worker count: every value rsec16.DefaultNumGoroutines (and par2.NumGoroutinesDefault) can return is >= 1 - runtime.GOMAXPROCS(0) is, but a core count reported by the cpuid package is 0 when it cannot be detected (every GOARCH other than amd64/386/arm64, x86 CPUs of other vendors), so it may lower the count only where it was found positive; a default of 0 makes the coder's constructor panic for every PAR2 create, verify and repair that leaves the option alone"
+
+func ruleDEFPOS(w *World, r *Report) {
+	r.rule("DEFPOS", ruleDEFPOSText)
+	rangeWorld = w
+	n := 0
+	for _, name := range []string{"rsec16.DefaultNumGoroutines", "par2.NumGoroutinesDefault"} {
+		fn := w.Fn(name)
+		if fn == nil {
+			r.unk("DEFPOS", name, "", "function not found")
+			continue
+		}
+		k := 0
+		for _, b := range fn.Blocks {
+			ret, ok := b.Instrs[len(b.Instrs)-1].(*ssa.Return)
+			if !ok || len(ret.Results) != 1 {
+				continue
+			}
+			n++
+			key := fmt.Sprintf("%s:return#%d", name, k)
+			k++
+			if c, ok := stripAllConv(ret.Results[0]).(*ssa.Call); ok && c.Call.StaticCallee() != nil && shortName(c.Call.StaticCallee()) == "rsec16.DefaultNumGoroutines" && name != "rsec16.DefaultNumGoroutines" {
+				r.ok("DEFPOS", key, w.ipos(ret), "forwards rsec16.DefaultNumGoroutines")
+				continue
+			}
+			if why := posProblem(w, ret.Results[0], b, 0, false); why != "" {
+				r.bad("DEFPOS", key, w.ipos(ret), why+": the default goroutine count can be 0, and the coder's constructor panics on it")
+			} else {
+				r.ok("DEFPOS", key, w.ipos(ret), "every value returned is >= 1")
+			}
+		}
+	}
+	r.floor("DEFPOS", "returns of the default-count functions", n, 2)
 }
